@@ -118,8 +118,8 @@ func c15(args []string) int {
 		if r.Pct(70) {
 			if n > 0 && r.Pct(60) {
 				src := metas[r.Intn(n)]
-				for k, v := range src {
-					if r.Pct(60) {
+				for _, k := range ssKeys { // fixed key order: the run must be a function of the seed only
+					if v, ok := src[k]; ok && r.Pct(60) {
 						dflt[k] = v
 					}
 				}
@@ -383,7 +383,8 @@ func c15(args []string) int {
 					}
 				}
 			}
-			if len(run.Sum.Samples) < 6 && n >= 3 && len(c) >= 2 && len(o1.IDs) > 0 && r.Pct(3) {
+			// (no random draw here: the generated inputs must not depend on what the implementation answered)
+			if len(run.Sum.Samples) < 6 && n >= 3 && len(c) >= 2 && len(o1.IDs) > 0 && run.Sum.Distribution["queries"]%29 == 0 {
 				run.Sample(rep)
 			}
 			cq := "None"
